@@ -805,6 +805,20 @@ def odd_default_stream(ctx, res):
     item.x = cc.IntField(default=1)
     item.tags = cc.ListField(default=lambda: ["t"])
     T = cc.make_type(item, "OddItem")
+    rich = cc.Schema()
+    rich.x = cc.IntField(default=1)
+    rich.tags = cc.ListField(default=lambda: [])
+    rich.meta = cc.DictField(default=lambda: {})
+    rich.free = cc.Field()
+    RichT = cc.make_type(rich, "OddRich")
+
+    class Holder:
+        def __init__(self):
+            self.template = [[7], {"k": [8]}]
+
+        def get(self):
+            return self.template
+    shared = {"l1": [[1], [2]], "l2": [[1], [2]], "d1": {"k": [1]}, "d2": {"k": [1]}, "a1": {"k": [[1]]}, "holder": Holder()}
 
     def nested_lists(v):
         out = []
@@ -825,7 +839,21 @@ def odd_default_stream(ctx, res):
               ("dict-given-as-pairs", lambda: cc.DictField(default=[("cpu", [1, 2])])),
               ("typed-dict-given-as-pairs", lambda: cc.DictField(cc.StringField(), cc.ListField(cc.IntField()), default=[("cpu", [1, 2])])),
               ("list-of-config-type-objects", lambda: cc.ListField(T, default=[T(x=3)])),
-              ("list-of-configuration-objects", lambda: cc.ListField(item, default=[item(x=4)]))]
+              ("list-of-configuration-objects", lambda: cc.ListField(item, default=[item(x=4)])),
+              # items given as maps that hold containers of their own (three and more levels below the declared default)
+              ("list-of-maps-for-configurations", lambda: cc.ListField(rich, default=[{"x": 5, "tags": ["t1"], "meta": {"k": [1]}, "free": [[1], {"j": [2]}]}])),
+              ("list-of-maps-for-config-types", lambda: cc.ListField(RichT, default=[{"x": 6, "tags": ["t2"], "meta": {"k": [1]}, "free": {"j": [2]}}])),
+              ("list-of-untyped-dicts", lambda: cc.ListField(cc.DictField(), default=[{"k": [1, 2], "d": {"j": [3]}}])),
+              ("untyped-list-of-dicts", lambda: cc.ListField(default=[{"k": {"j": [1]}}, [[2]]])),
+              ("dict-of-lists-of-dicts", lambda: cc.DictField(default={"a": [{"k": [1]}]})),
+              ("any-dict-of-dicts", lambda: AnyField(default={"a": {"b": {"c": [1]}}})),
+              # a default factory that hands out one and the same object on every call (a module-level template, a bound method)
+              ("factory-shared-untyped-list", lambda: cc.ListField(default=lambda: shared["l1"])),
+              ("factory-shared-typed-list", lambda: cc.ListField(cc.ListField(cc.IntField()), default=lambda: shared["l2"])),
+              ("factory-shared-untyped-dict", lambda: cc.DictField(default=lambda: shared["d1"])),
+              ("factory-shared-typed-dict", lambda: cc.DictField(cc.StringField(), cc.ListField(cc.IntField()), default=lambda: shared["d2"])),
+              ("factory-shared-any", lambda: AnyField(default=lambda: shared["a1"])),
+              ("factory-bound-method", lambda: cc.ListField(default=shared["holder"].get))]
     for name, mk in makers:
         s = cc.Schema()
         try:
@@ -850,9 +878,17 @@ def odd_default_stream(ctx, res):
                 res.violate("C13:other-config-changed:odd-default", "two configurations hold the very same item configuration object taken from the default", case)
             va[0].x = 99
             va[0].tags.append("edited")
+            for held in list(va[0]._data.values()):
+                if isinstance(held, dict):
+                    held["edited"] = 1
+                for lst in nested_lists(held):
+                    lst.append("edited")
         else:
             for lst in nested_lists(va):
-                lst.append("edited")
+                try:
+                    lst.append("edited")
+                except Exception:  # noqa  (a typed inner list of numbers)
+                    lst.append(99)
         c = s()
         if tree_of(b.sub.f) != first:
             res.violate("C13:other-config-changed:odd-default", "an in-place mutation through one configuration changed what another one observes", dict(case, other=tree_of(b.sub.f)))
